@@ -160,8 +160,8 @@ func reloadRound(walk []string, round int) {
 			what = append(what, fmt.Sprintf("jobs accepted up to %d ms after the definitions changed %s->%s (walk %v) still print %q, expected %q",
 				300*8, cur, next, walk[:step+2], after, verOutput(next)))
 		}
-		if after == verOutput(next) && maxExec != verConc(next) {
-			// (only judged when the reload has demonstrably taken place)
+		if maxExec != verConc(next) {
+			// (judged also when the new version did not show: then the old limit is still in force although the file changed)
 			lw := fmt.Sprintf("after the definitions changed %s->%s (walk %v) the concurrency limit is %d, but %d jobs of the pipeline executed at once out of 3 requested together",
 				cur, next, walk[:step+2], verConc(next), maxExec)
 			rec["limit_what"] = lw
